@@ -76,14 +76,8 @@ theorem pstep_logOk (reg : Registry) (pre : List Item) (s : PState) (it : Item) 
         simp only [pstep] at hcb
         split at hcb <;> exact processOnt_log reg _ ts ss cb hcb
       | semFail => exact Or.inl hcb
-      | schemaSemFail =>
-        simp only [pstep] at hcb
-        exact reprocess_log reg _ { s with children := s.children ++ [Kind.ont] } cb hcb
-      | schemaSemOk =>
-        simp only [pstep] at hcb
-        rcases processOnt_log reg _ ts ss cb hcb with h1 | h1
-        · exact reprocess_log reg _ { s with children := s.children ++ [Kind.ont] } cb h1
-        · exact Or.inr h1
+      | schemaSemFail => exact Or.inl hcb
+      | schemaSemOk => exact Or.inl hcb
     rcases key with hk | hk
     · exact hm cb hk idx hd
     · rw [hk] at hd; cases hd
@@ -151,5 +145,18 @@ theorem gate_rejection_raises (reg : Registry) (s : PState) (i : Nat) (t src : S
 example : (prun ⟨[("t", [1])], [], [], false, true⟩ {}
     [.ont .ok ["t"] ["/s/"], .event 0 "t" "/s/" true, .event 1 "t" "/s/" false, .event 2 "t" "/s/" true]).1.log =
     [.ontology ["t"] ["/s/"], .handler 1 0] := by decide +kernel
+
+/-- **C15: an ontology element that the gate rejects reaches no callback and leaves the parser's
+ontology alone**: whatever the reason of the rejection (an incompatible definition, a schema
+violation, with or without a definition that `Ontology.update` would have taken), the step raises the
+ontology validation error, and neither the callback log nor the ontology the parser holds changes -/
+theorem rejected_ontology_not_delivered (reg : Registry) (s : PState) (v : OntV) (ts ss : List String) (hv : v ≠ .ok) :
+    (pstep reg s (.ont v ts ss)).2 = some .ontologyValidation ∧
+    (pstep reg s (.ont v ts ss)).1.log = s.log ∧ (pstep reg s (.ont v ts ss)).1.ont = s.ont := by
+  cases v with
+  | ok => exact absurd rfl hv
+  | semFail => exact ⟨rfl, rfl, rfl⟩
+  | schemaSemFail => exact ⟨rfl, rfl, rfl⟩
+  | schemaSemOk => exact ⟨rfl, rfl, rfl⟩
 
 end EdxmlProps.C15
